@@ -6,7 +6,7 @@ from gencheck import *
 
 def run(tier):
     C = Check('C15', tier)
-    C.prove('Properties/C15.v', bridges={'Model/Recover.v': []})
+    C.prove('Properties/C15.v', bridges={'Model/Recover.v': [], 'Properties/C02R.v': []})
     C.cov['tie']['protocol_code_generator + generated code'] = ('correspondence-only: real generator + generated code executed in both entry modes, with validation '
                                                                'errors planted at any depth and writer/reader primitives failing at their k-th call')
     quick = tier == 'quick'
@@ -22,7 +22,8 @@ def run(tier):
                 try:
                     v = vg.obj(cls, body)
                     ms = list(obj_mutants(R, vg, cls, body, v))
-                except Exception:
+                except Exception as ex:
+                    C.harness_failure('value-generation', f"{t['name']} {cls}: {type(ex).__name__}: {ex}")
                     continue
                 for san in (False, True):
                     jobs.append(dict(op='ser', cls=cls, value=v, san=san, then_deser=(san is False), mutants=4))
@@ -41,6 +42,8 @@ def run(tier):
         entries.append(dict(name=t['name'], tree=t['tree'], jobs=jobs, want_sources=True))
     run_entries(C, runner, entries)
     recover_stream(C, entries, 'c15')
+    render_stream(C, entries, 'c15')
+    C.cov['tie']['generated serialize methods (semantics)'] = ('way 1 for generated code: tools/py2stmt.py parses every generated serialize method from the SOURCE TEXT (generic, fail-closed) into the statement language of Model/PyStmt.v; Model/RenderCheck.v checks inside Coq that it equals render_serialize (elab tree); Properties/C02R.v proves that running those statements IS Model/Ser.v, for all objects and writer states')
     C.cov['tie']['generated classes (structure)'] = ('translation validation: tools/gen2instr.py recovers the instruction lists of every generated serialize / deserialize / __init__ from the SOURCE TEXT (fail-closed) and Model/Recover.v compares them with elab of the same tree (vm_compute): the theorems about the elaborated instruction lists apply to the code as emitted, for all objects and bytes')
     # ---- oracle on the implementation: mode out = mode in, whether the call returned or raised
     n = nraised = ninj = 0
